@@ -184,6 +184,13 @@ func (x *Exec) oblName(kind, label string) string {
 // assert records a proof obligation and then assumes the goal.
 func (x *Exec) assert(st *State, goal Term, kind, label string, n ast.Node, text string) {
 	if goal.S == "true" {
+		// A contract-level obligation that simplifies to `true` is still recorded (discharged syntactically): whether it
+		// simplifies depends on incidental term structure, and an obligation that comes and goes with harmless edits
+		// would be reported as lost. Safety obligations (bounds, nil) that are trivially true are not recorded.
+		switch kind {
+		case "post", "inv-init", "inv-keep", "lemma", "lemma-step", "frame", "ghost-assert", "dec", "dec-bound":
+			x.obls = append(x.obls, &Obligation{Name: x.oblName(kind, label), Kind: kind, Func: x.fullKey, PC: tTrue, Goal: tTrue, Pos: x.posOf(n), Text: text, syntactic: true})
+		}
 		return
 	}
 	o := &Obligation{Name: x.oblName(kind, label), Kind: kind, Func: x.fullKey, NDecls: len(x.c().decls), PC: st.pc, Goal: goal, Pos: x.posOf(n), Text: text}
